@@ -219,12 +219,12 @@ PROPS = {
         'replay_kind': 'two_seq',
     },
     'C13': {
-        'lib': LIB + ['Spec/ScanRef', 'Spec/ScanAuto', 'Check/Scan', 'Check/C19', 'Check/C13'],
-        'syn': ['Props/C13', 'Props/E2E'], 'needs_syn': ['Syn/Set1', 'Syn/Set2', 'Check/C13', 'Seq'],
-        'ext': ['Props/C13_ext'], 'needs_ext': ['ExtI/Scan', 'Check/C13'],
+        'lib': LIB + ['Spec/ScanRef', 'Spec/ScanAuto', 'Check/Scan', 'Check/C19', 'Check/C13', 'Check/C13s'],
+        'syn': ['Props/C13', 'Props/C13s', 'Props/E2E'], 'needs_syn': ['Syn/Set1', 'Syn/Set2', 'Check/C13', 'Check/C13s', 'Seq'],
+        'ext': ['Props/C13_ext', 'Props/C13s_ext'], 'needs_ext': ['ExtI/Scan', 'Check/C13', 'Check/C13s'],
         'corr': ['Corr/Set1', 'Corr/Set2'], 'needs_corr': ['Syn/Set1', 'Syn/Set2', 'ExtI/Scan'],
         'info': ['Spec/ReadmeCheck'],
-        'cex_ext': 'Cex/C13_ext', 'cex_syn': 'Cex/C13_syn',
+        'cex_ext': ['Cex/C13_ext', 'Cex/C13s_ext'], 'cex_syn': ['Cex/C13_syn', 'Cex/C13s_syn'],
         'replay_kind': 'c13',
         'bonus': ['Props/E2E_full'],
     },
